@@ -144,3 +144,62 @@ def build_go_overlay(tags="verif"):
         cmd = ["go", "build", "-o", binp, "-tags", tags, "-overlay", oj, "./cmd/avfscheck"]
         rc, out = sh(cmd, cwd=HARNESS, env=GOENV, timeout=900)
         return rc == 0, out, binp
+
+
+def stream(ctx, name, harness_cmd, driver_cmd, tags="verif", extra_args=None, replay_lines=None):
+    """Ctx.stream for the overlay build: run one generator stream through the instrumented
+    implementation and the extracted model; returns the list of (index, case, model, observed)
+    that differ, or None after ctx.broken(...)."""
+    import subprocess
+    from . import build_coq, build_ml, run_driver_sharded
+    ok, out, failing = build_coq()
+    if not ok:
+        ctx.broken("coq-build", "the Coq development does not build; first failing file: %s" % failing, "\n".join(out.splitlines()[-40:]))
+        return None
+    ok, out = build_ml()
+    if not ok:
+        ctx.broken("model-build", "extraction / OCaml build of the model failed", out[-3000:])
+        return None
+    ok, out, binp = build_go_overlay(tags)
+    if not ok:
+        ctx.broken("overlay-build", "the instrumented harness does not build against %s (overlay rewrite refused or compile error): the scheduling hook cannot be installed" % REPO, out[-3000:])
+        return None
+    args = [binp, harness_cmd, "-seed", str(ctx.seed), "-tier", ctx.tier, "-out", ctx.dir, "-name", name]
+    if extra_args:
+        args += extra_args
+    if replay_lines is not None:
+        rf = os.path.join(ctx.dir, name + ".replayin")
+        with open(rf, "w") as f:
+            f.write("\n".join(replay_lines) + "\n")
+        args += ["-replay", rf]
+    rc, out = sh(args, cwd=ctx.dir, env=GOENV, timeout=3000)
+    if rc != 0:
+        ctx.broken("harness-run:" + name, "the harness command %s failed (rc=%d)" % (harness_cmd, rc), out[-3000:])
+        return None
+    cases = os.path.join(ctx.dir, name + ".cases")
+    model = os.path.join(ctx.dir, name + ".model")
+    err = run_driver_sharded(driver_cmd, cases, model)
+    if err:
+        ctx.broken("model-run:" + name, "the model driver failed on stream " + name, err[-3000:])
+        return None
+    mism = []
+    n = 0
+    with open(cases) as fc, open(model) as fm, open(os.path.join(ctx.dir, name + ".observed")) as fo:
+        for i, (c, m, o) in enumerate(zip(fc, fm, fo)):
+            n += 1
+            if m != o:
+                mism.append((i, c.rstrip("\n"), m.rstrip("\n"), o.rstrip("\n")))
+    if replay_lines is None:
+        try:
+            st = json.load(open(os.path.join(ctx.dir, name + ".stats.json")))
+        except Exception:
+            st = {"evaluations": n}
+        ctx.coverage["evaluations"] += st.get("evaluations", n)
+        ctx.coverage["distinct_nontrivial"] += st.get("distinct_nontrivial", 0)
+        if st.get("rule"):
+            ctx.coverage["rule"] += ("; " if ctx.coverage["rule"] else "") + "[%s] %s" % (name, st["rule"])
+        for s in st.get("samples", [])[:3]:
+            ctx.coverage["samples"].append({"stream": name, "case": s[:600]})
+        ctx.coverage["streams"][name] = {k: v for k, v in st.items() if k not in ("samples", "rule")}
+        ctx.coverage["streams"][name]["mismatches"] = len(mism)
+    return mism
